@@ -37,6 +37,12 @@ CLAIMED = {
  "C12": ("exploration", "runtime monitoring: reference-model oracle over observed Spec.Precedences (levels, associativity, handles, language of production handles)",
          "Generated directive lists (0-8 levels, all associativities, terminal and rule handles with alternation and extended operators, any placement) are parsed by the real spec.Parse; the recorded levels are compared with the directives read by the reference reader; production handles must be grammar productions, be counted per distributed alternative and generate the written language.",
          "Trusted base: R1 reader, R3 bounded languages (k=4).", "5/C12"),
+ "C11": ("exploration", "runtime monitoring: reference-reader oracle over observed trees (generic parse tree, typed tree with positions), unparser round trip and derived-grammar comparison",
+         "The real ParseAndBuildAST and ebnf ast.Parse are run on generated specifications; the generic tree must equal the reference reader's tree leaf by leaf (terminal, lexeme, position) and node by node (documented production); the typed tree must equal the reference typed tree (normalised) including positions; the typed tree is printed back to EBNF and re-parsed; the bounded languages derived from the typed tree must equal those of spec.Parse's grammar.",
+         "Trusted base: R1 reader, harness unparser, R3 (k=4).", "5/C11"),
+ "C13": ("exploration", "runtime monitoring: metamorphic + reference oracle over observed results of re-laid-out texts, with a byte-by-byte padding sweep across buffer alignments",
+         "For each base specification the real spec.Parse / ast.Parse / lexer are run on seeded re-layouts of the same token sequence and on a padding sweep (every padding amount in the thorough tier; windows below each buffer multiple plus every 8th amount in the quick tier) at three places; the canonical rendering of the result must be identical and the token positions must equal the reference scanner's on each variant.",
+         "Trusted base: R1 scanner for absolute positions; canonical rendering in specobs.go/astobs.go.", "5/C13"),
 }
 
 PENDING_REASON = "check not built yet in this round (planned, see DESIGN.md section 5)"
